@@ -42,7 +42,7 @@ VALUES = [None, True, 1, 1.0, "1", [], {}, [1], [True], {"a": 1}, {"a": True}, "
 
 
 def plan(tier, seed):
-    specs = [{"kind": "flags"}, {"kind": "test-equality"}, {"kind": "scale"}, {"kind": "pointer-subclass"}, {"kind": "move-post-removal"}, {"kind": "threads", "rounds": 20 if tier == "quick" else 150}] + [{"kind": "single", "doc": i, "ops": ops} for i in range(len(DOCS)) for ops in (["add", "replace", "test", "remove"], ["move"], ["copy"])]
+    specs = [{"kind": "flags"}, {"kind": "test-equality"}, {"kind": "scale"}, {"kind": "pointer-subclass"}, {"kind": "move-post-removal"}, {"kind": "tuples"}, {"kind": "threads", "rounds": 20 if tier == "quick" else 150}] + [{"kind": "single", "doc": i, "ops": ops} for i in range(len(DOCS)) for ops in (["add", "replace", "test", "remove"], ["move"], ["copy"])]
     for _ in range(6 if tier == "quick" else 20):
         specs.append({"kind": "sequences", "n": 2500 if tier == "quick" else 60000})
     return specs
@@ -176,6 +176,88 @@ def check(ctx, doc, ops, cls):
         ctx.violation("result-shares-structure:%s" % opn, case, {"ops": ops, "doc": canon(doc)[:200], "result": canon(o.value)[:300]})
         return
     ctx.cell("outcomes", "%s -> document" % opn)
+
+
+def _with_tuples(doc, tuple_at):
+    """The document with the arrays at the given locations held as tuples (what a caller's own loader, a database
+    driver or `tuple(...)` gives): arrays that can be read but not changed."""
+    def build(v, loc):
+        if isinstance(v, dict):
+            return {k: build(x, loc + (k,)) for k, x in v.items()}
+        if isinstance(v, list):
+            items = [build(x, loc + (i,)) for i, x in enumerate(v)]
+            return tuple(items) if list(loc) in tuple_at else items
+        return v
+    return build(doc, ())
+
+
+def _plain(v):
+    if isinstance(v, dict):
+        return {k: _plain(x) for k, x in v.items()}
+    if isinstance(v, (list, tuple)):
+        return [_plain(x) for x in v]
+    return v
+
+
+def check_tuples(ctx, doc, tuple_at, op):
+    """One operation on a document some of whose arrays are tuples. An operation that would have to change a tuple
+    (insert into it, delete from it, replace one of its elements - as target, or as the source of a move) cannot give
+    the document RFC 6902 defines, so it must fail with a patch error (or still return that document by value); every other
+    operation (reading through tuples, changing containers inside them) must give the RFC's document."""
+    import jsonpath
+
+    ctx.evaluation()
+    case = {"tuples": True, "doc": doc, "tuple_at": tuple_at, "op": op}
+    try:
+        want = rp.apply_patch(doc, [op])
+        fail = None
+    except rp.PatchFail as e:
+        want, fail = None, e
+    except rp.Unspecified:
+        return
+    written = []
+    if op["op"] != "test":
+        written.append(rp.decode(op["path"])[:-1] if op["path"] else None)
+    if op["op"] == "move":
+        if op["from"] == op["path"]:
+            return
+        written.append(rp.decode(op["from"])[:-1] if op["from"] else None)
+
+    def is_tuple_loc(toks):
+        if toks is None:
+            return False
+        cur, loc = doc, []
+        try:
+            for t in toks:
+                nxt = rp.step(cur, t)
+                loc.append(int(t) if isinstance(cur, list) else t)
+                cur = nxt
+        except rp.Unresolvable:
+            return False
+        return loc in tuple_at
+    must_refuse = fail is not None or any(is_tuple_loc(t) for t in written)
+    d = _with_tuples(doc, tuple_at)
+    o = impl.call(jsonpath.patch.apply, [copy.deepcopy(op)], d)
+    ctx.cell("tuple_outcomes", "%s -> %s" % (op["op"], "refused" if must_refuse else "document"))
+    if must_refuse and o.ok and fail is None and strict_eq(_plain(o.value), want):
+        # (the returned document is the RFC's all the same - e.g. a move to the root, where the tuple is no longer part of the result)
+        ctx.count("tuple_operations_answered_with_the_rfc_document_anyway")
+        return
+    if must_refuse:
+        if o.ok:
+            ctx.violation("operation-that-must-change-an-immutable-array-reported-success:%s" % op["op"], case, {"op": op, "doc": repr(_with_tuples(doc, tuple_at))[:200], "result": repr(o.value)[:300], "why": str(fail) if fail else "the container to change is a tuple"})
+            return
+        if not isinstance(o.exc, jsonpath.JSONPatchError):
+            ctx.violation("failed-with-foreign-exception:%s:%s" % (op["op"], type(o.exc).__name__), case, {"op": op, "error": o.desc(), "site": o.site})
+            return
+        return
+    if not o.ok:
+        ctx.violation("valid-operation-failed:%s:%s" % (op["op"], type(o.exc).__name__), case, {"op": op, "doc": repr(d)[:200], "error": o.desc(), "expected": canon(want)[:200]})
+        return
+    if not strict_eq(_plain(o.value), want):
+        ctx.violation("result-differs-from-rfc:%s" % op["op"], case, {"op": op, "doc": repr(_with_tuples(doc, tuple_at))[:200], "result": repr(o.value)[:300], "expected": canon(want)[:300]})
+        return
+    ctx.count("operations_on_documents_holding_tuples")
 
 
 _PTR_CLASSES = {}
@@ -360,6 +442,25 @@ def run(spec, ctx):
         ctx.bulk(n)
         ctx.count("test_equality_pairs", n)
         return
+    if spec["kind"] == "tuples":
+        for di in (3, 4, 7, 11):
+            doc = DOCS[di]
+            arrays = [list(loc) for loc, v in nodes(doc) if isinstance(v, list)] + ([[]] if isinstance(doc, list) else [])
+            ps = paths_for(doc)
+            for tuple_at in [[a] for a in arrays] + [arrays]:
+                for p in ps:
+                    ptxt = rp.encode(p)
+                    for v in (1, [1], {"a": 1}):
+                        check_tuples(ctx, doc, tuple_at, {"op": "add", "path": ptxt, "value": v})
+                        check_tuples(ctx, doc, tuple_at, {"op": "replace", "path": ptxt, "value": v})
+                    for v in test_values(doc, p)[-3:]:
+                        check_tuples(ctx, doc, tuple_at, {"op": "test", "path": ptxt, "value": v})
+                    check_tuples(ctx, doc, tuple_at, {"op": "remove", "path": ptxt})
+                    for q in ps:
+                        for name in ("move", "copy"):
+                            check_tuples(ctx, doc, tuple_at, {"op": name, "from": rp.encode(q), "path": ptxt})
+                ctx.case(h("tuples", di, canon(tuple_at)), True)
+        return
     if spec["kind"] == "single":
         doc = DOCS[spec["doc"]]
         ps = paths_for(doc)
@@ -411,6 +512,9 @@ def replay(case, ctx):
         from .c15 import run_threads
 
         run_threads(ctx, 40, fixed=(case["template"], case["ops"]))
+        return
+    if case.get("tuples"):
+        check_tuples(ctx, case["doc"], case["tuple_at"], case["op"])
         return
     if case.get("flags"):
         from rt import flag_history
